@@ -111,7 +111,7 @@ def gen_plan_c07(seed, index, tier="quick"):
         apis = list(RETRIABLE)
         kinds = ["reply_error", "reply_error", "drop_before_apply", "drop_after_apply",
                  "lose_response", "delay", "coordinator_move", "coordinator_loading",
-                 "broker_down", "leader_move"]
+                 "broker_down", "leader_move", "broker_failover"]
         enabled = r.sample(kinds, r.randint(1, len(kinds)))
         for _ in range(r.randint(1, 6)):
             k = r.choice(enabled)
@@ -138,6 +138,12 @@ def gen_plan_c07(seed, index, tier="quick"):
             elif k == "leader_move":
                 faults.append({"on": trig, "do": {"leader_move": ["t0", r.randrange(nparts),
                                                                   r.randint(1, nbrokers)]}})
+            elif k == "broker_failover":
+                # the broker that is serving this very request dies (its roles move for good)
+                faults.append({"on": trig,
+                               "do": {"broker_failover": [
+                                   r.choice(["serving", "serving_after", r.randint(1, nbrokers)]),
+                                   r.choice([0.3, 1.0, 3.0] if nbrokers == 1 else [0.3, 3.0, 30.0, 1e6])]}})
     return {"format": 1, "prop": "C07", "engine": "txn", "mode": "app",
             "seed": scenario.subseed(seed, "C07", index), "index": index, "cluster": cluster,
             "producers": producers, "env": env, "faults": faults}
@@ -650,10 +656,15 @@ def execute_one(plan):
         # let pending futures of the last transaction settle, then stop
         t0 = world.now()
         stop_task = asyncio.ensure_future(producer.stop())
-        done, _ = await asyncio.wait([stop_task], timeout=10 * bound)
+        # (a producer one of whose calls already hung has been judged: do not let it retry
+        # through ten more bounds of virtual time)
+        hung = any(t.producer == cid and (t.outcome == "hang" or getattr(t, "hang_after", False))
+                   for t in obs["txns"])
+        done, _ = await asyncio.wait([stop_task], timeout=(1 if hung else 10) * bound)
         if not done:
             obs["notes"].append(("stop_hang", cid))
             world.probe("stop_hang")
+            world.loop.kill(cid)
         state["alive"].discard(cid)
         _ = t0
 
